@@ -136,8 +136,8 @@ fn reads<D: Deref<Target = [i32]>>(v: &Inner<i32, D>, g: Geo, model: &[i32], cx:
         cx.viol("is_empty", tag.into(), format!("is_empty={} for {}x{}", v.is_empty(), g.w, g.h));
     }
     // get / index by point for every position one past the bounds and at u32::MAX
-    let xs: Vec<u32> = (0..=g.w + 1).chain([u32::MAX]).collect();
-    let ys: Vec<u32> = (0..=g.h + 1).chain([u32::MAX]).collect();
+    let probe = |n: u32| -> Vec<u32> { if n <= 8 { (0..=n + 1).chain([u32::MAX]).collect() } else { let mut v = vec![0, 1, 2, n / 2, 254, 255, 256, 257, 65535, 65536, n - 2, n - 1, n, n + 1, u32::MAX]; v.retain(|x| *x <= n + 1 || *x == u32::MAX); v.sort(); v.dedup(); v } };
+    let (xs, ys) = (probe(g.w), probe(g.h));
     for &y in &ys {
         for &x in &xs {
             let inb = x < g.w && y < g.h;
@@ -162,7 +162,7 @@ fn reads<D: Deref<Target = [i32]>>(v: &Inner<i32, D>, g: Geo, model: &[i32], cx:
         }
     }
     // row indexing
-    let rows_idx: Vec<usize> = (0..=g.h as usize + 1).chain([u32::MAX as usize, 1usize << 32, (1usize << 32) + 1]).collect();
+    let rows_idx: Vec<usize> = ys.iter().map(|y| *y as usize).chain([1usize << 32, (1usize << 32) + 1]).collect();
     for &i in &rows_idx {
         cx.rep.eval();
         let got = caught(|| v[i].to_vec());
@@ -311,7 +311,10 @@ fn recipes(g0: Geo, all_forms_first: bool, oob: bool) -> Vec<(Vec<Step>, Option<
     let rects = |g: Geo, oob: bool| -> Vec<(u32, u32, u32, u32)> {
         let mut v = vec![];
         let (mw, mh) = if oob { (g.w + 1, g.h + 1) } else { (g.w, g.h) };
-        for l in 0..=mw { for r in 0..=mw { for t in 0..=mh { for b in 0..=mh {
+        // small extents: every coordinate; large extents (scale sentinels): edge and middle coordinates only
+        let cand = |m: u32, full: u32| -> Vec<u32> { if full <= 8 { (0..=m).collect() } else { let mut v = vec![0, 1, full / 2, full - 1, full]; if m > full { v.push(m); } v.sort(); v.dedup(); v } };
+        let (xs, ys) = (cand(mw, g.w), cand(mh, g.h));
+        for &l in &xs { for &r in &xs { for &t in &ys { for &b in &ys {
             let valid = l <= r && r <= g.w && t <= b && b <= g.h;
             if valid { v.push((l, t, r, b)); }
             else if oob {
@@ -623,6 +626,9 @@ fn main() {
         let root = Root::Buf { w, h };
         init.push(State { root, contents: (1..=(w * h) as i32).collect() });
     }}
+    // scale sentinels: a few large roots (extents beyond 255 and 65535), expanded once with edge/middle recipes
+    let large: Vec<(u32, u32)> = if quick { vec![(300, 3), (2, 258), (65537, 1)] } else { vec![(300, 3), (3, 300), (257, 2), (2, 258), (65537, 1), (1, 65537), (70, 70)] };
+    for &(w, h) in &large { init.push(State { root: Root::Buf { w, h }, contents: (1..=(w * h) as i32).collect() }); }
     let mut rep = Report::new();
     for (root, can_hold) in direct_roots(if quick { 2 } else { 3 }) {
         let Root::Direct { w, h, stride, len } = root else { unreachable!() };
@@ -657,7 +663,7 @@ fn main() {
         let r = par_range(&cfg, states.len() as u64, |i, rp| {
             let st = &states[i as usize];
             let small = st.root.len() <= if quick { 6 } else if depth >= 2 { 4 } else { 9 };
-            let ws = want_succ && (depth == 0 || small);
+            let ws = want_succ && (depth == 0 || small) && st.root.len() <= 16;
             let succ = expand(st, rp, &src, ws, depth == 0);
             rp.states += 1;
             rp.sample(fnv(&format!("{:?}{:?}", st.root, st.contents)), || obj! {"state" => st.root.descr(), "contents" => format!("{:?}", st.contents), "depth" => depth as u64, "successors" => succ.len()});
